@@ -3,6 +3,7 @@ package rules
 import (
 	"fmt"
 	"go/constant"
+	"go/types"
 	"sort"
 	"strings"
 
@@ -23,8 +24,8 @@ var revLookExempt = map[string]string{
 func init() {
 	core.Register(&core.Rule{
 		Name: "R-REVLOOK",
-		Doc: "A reverse automaton is built only for patterns it can represent. The reverse NFA constructors of package nfa (Reverse, ReverseAnchored) turn every look-around assertion into an epsilon edge, so a reverse scan accepts positions an assertion rules out. Every call of one of them in package meta is therefore dominated by a branch on a predicate over the syntax tree whose family (the predicate and the module functions it reaches) compares node operators with all of OpWordBoundary, OpNoWordBoundary, OpBeginLine and OpEndLine - or is exempt by name because the searcher belongs to a reverse strategy, and then the selection of that strategy is the obligation: every return of a UseReverse* strategy constant has, on its dominator chain, a call of a predicate whose family compares with OpBeginLine and OpEndLine (word boundaries are routed away earlier: probed, not decided). Pinned tree: the two ReverseAnchored calls of the bidirectional DFA were unguarded: \\bfoo.*bar on \"xfoo foo bar\" gave [1 12] (regexp [5 12]) ⇒ fixed. Necessary for C02 (leftmost start) and C14 (the reverse DFA is exact for what it is asked).",
-		Min: 9, NeedSSA: true,
+		Doc: "A reverse automaton is built only for patterns it can represent. The reverse NFA constructors of package nfa (Reverse, ReverseAnchored) turn every look-around assertion into an epsilon edge, so a reverse scan accepts positions an assertion rules out. Every call of one of them in package meta is therefore dominated by a branch on a predicate over the syntax tree whose family (the predicate and the module functions it reaches) compares node operators with all of OpWordBoundary, OpNoWordBoundary, OpBeginLine and OpEndLine - or is exempt by name because the searcher belongs to a reverse strategy, and then the selection of that strategy is the obligation: every return of a UseReverse* strategy constant has, on its dominator chain, a call of a predicate whose family compares with OpBeginLine and OpEndLine (word boundaries are routed away earlier: probed, not decided). (c) The literal-engine strategies (UseTeddy, UseAhoCorasick) report literal occurrences only: each return of their constant is dominated by a branch on a value derived - possibly through a struct field stored from such a call - from a detector whose family compares with the word-boundary operators. Pinned tree: the two ReverseAnchored calls of the bidirectional DFA were unguarded: \\bfoo.*bar on \"xfoo foo bar\" gave [1 12] (regexp [5 12]) ⇒ fixed. Necessary for C02 (leftmost start) and C14 (the reverse DFA is exact for what it is asked).",
+		Min: 11, NeedSSA: true,
 		Run: func(p *core.Prog) *core.RuleResult {
 			res := &core.RuleResult{}
 			kc := core.NewKeyCounter()
@@ -218,6 +219,119 @@ func init() {
 							} else {
 								o.Status = core.Violated
 								o.Detail = "a strategy that searches backwards with a reverse NFA is selected without any detector of line anchors on the way"
+							}
+							res.Obligations = append(res.Obligations, o)
+						}
+					}
+				}
+			}
+			// (c) the literal engines (Teddy, Aho-Corasick) report literal occurrences and nothing else: the return of
+			// their strategy constant is dominated by a branch whose condition derives - directly or through a field
+			// that is stored from such a call - from a detector whose family compares with the word-boundary operators
+			if strat != nil {
+				lit := map[int64]string{}
+				for n, c := range enumConsts(strat) {
+					if n == "UseTeddy" || n == "UseAhoCorasick" {
+						if v, ok := constant.Int64Val(c.Val()); ok {
+							lit[v] = n
+						}
+					}
+				}
+				// values stored into struct fields of package meta, by field name
+				fieldStores := map[string][]ssa.Value{}
+				for _, fn := range p.SrcFuncs() {
+					if fn.Pkg != mpk {
+						continue
+					}
+					for _, b := range fn.Blocks {
+						for _, in := range b.Instrs {
+							if st, ok := in.(*ssa.Store); ok {
+								if fa, ok := st.Addr.(*ssa.FieldAddr); ok {
+									fieldStores[fieldNameOf(fa)] = append(fieldStores[fieldNameOf(fa)], st.Val)
+								}
+							}
+						}
+					}
+				}
+				var detectors func(v ssa.Value, n int, seen map[ssa.Value]bool) []*ssa.Function
+				detectors = func(v ssa.Value, n int, seen map[ssa.Value]bool) []*ssa.Function {
+					if v == nil || n > 8 || seen[v] {
+						return nil
+					}
+					seen[v] = true
+					var out []*ssa.Function
+					switch x := v.(type) {
+					case *ssa.Call:
+						if f := x.Call.StaticCallee(); f != nil {
+							out = append(out, f)
+						}
+					case *ssa.UnOp:
+						out = append(out, detectors(x.X, n+1, seen)...)
+					case *ssa.BinOp:
+						out = append(out, detectors(x.X, n+1, seen)...)
+						out = append(out, detectors(x.Y, n+1, seen)...)
+					case *ssa.Phi:
+						for _, e := range x.Edges {
+							out = append(out, detectors(e, n+1, seen)...)
+						}
+					case *ssa.Field:
+						name := ""
+						if stt, ok := x.X.Type().Underlying().(*types.Struct); ok && x.Field < stt.NumFields() {
+							name = stt.Field(x.Field).Name()
+						}
+						for _, sv := range fieldStores[name] {
+							out = append(out, detectors(sv, n+1, seen)...)
+						}
+					case *ssa.FieldAddr:
+						for _, sv := range fieldStores[fieldNameOf(x)] {
+							out = append(out, detectors(sv, n+1, seen)...)
+						}
+					}
+					return out
+				}
+				for _, fn := range p.SrcFuncs() {
+					if fn.Pkg != mpk || strings.HasSuffix(p.File(fn.Pos()), "_test.go") {
+						continue
+					}
+					for _, b := range fn.Blocks {
+						for _, in := range b.Instrs {
+							r, ok := in.(*ssa.Return)
+							if !ok || len(r.Results) != 1 {
+								continue
+							}
+							c, ok := r.Results[0].(*ssa.Const)
+							if !ok || c.Value == nil || !strings.HasSuffix(c.Type().String(), "meta.Strategy") {
+								continue
+							}
+							v, _ := constant.Int64Val(c.Value)
+							name := lit[v]
+							if name == "" {
+								continue
+							}
+							o := core.Obligation{Key: kc.Key("R-REVLOOK", core.FuncName(fn), "selection of "+name+" guarded by an assertion detector"), Pos: p.Pos(r.Pos()), Nontrivial: true}
+							guard := ""
+							for d := b; d != nil && guard == ""; d = d.Idom() {
+								id := d.Idom()
+								if id == nil || len(id.Instrs) == 0 || len(d.Preds) != 1 {
+									continue
+								}
+								iff, isIf := id.Instrs[len(id.Instrs)-1].(*ssa.If)
+								if !isIf {
+									continue
+								}
+								for _, f := range detectors(iff.Cond, 0, map[ssa.Value]bool{}) {
+									fam := family(f)
+									if fam["OpWordBoundary"] && fam["OpNoWordBoundary"] {
+										guard = core.FuncName(f)
+									}
+								}
+							}
+							if guard != "" {
+								o.Status = core.Discharged
+								o.Detail = "a dominating branch tests a value that comes from " + guard + ", whose family compares with the word-boundary operators"
+							} else {
+								o.Status = core.Violated
+								o.Detail = name + " answers with literal occurrences only; its selection is not dominated by any test derived from a detector of word boundaries: a pattern such as \\d\\d\\b (complete literals) would match where the assertion fails"
 							}
 							res.Obligations = append(res.Obligations, o)
 						}
